@@ -9,7 +9,8 @@ META = {
                    'divisor instead of a raw machine operation whose overflow behaviour depends on the build profile; (R06.2) ordering of '
                    'integers compares decoded signed values, not tagged words as addresses; (R06.3) every integer entering the 61-bit '
                    'encoding is range-checked or provably small; (R06.4) the same-type check dominates every operation, operands keep their '
-                   'sides, floats use f64 primitives and strings str ordering.',
+                   'sides, floats use f64 primitives and strings str ordering.'
+                   ' R06.2 also fixes the float order to the IEEE-754 partial_cmp. R06.6 equality (and an explicit ne) answers per path only what the tags allow. R06.7 the specialised instructions apply the same primitive as the generic ones.',
     'not_decided': ['the numerical result of any particular operation', 'IEEE conformance of f64 (trusted to Rust/LLVM)', 'that comparison is a total order'],
 }
 TYPE = 'object::Type'
@@ -75,10 +76,63 @@ def run(ctx, rep):
         rep.ob(ok, 'R06.2', pc.path, 'arm covering Type::Int', 'integers must be ordered by their decoded signed values (as_int), not by the tagged words as addresses: %s' % why[:160], pc.loc())
     if not seen_int:
         rep.bad('R06.2', pc.path, 'arm covering Type::Int', 'no returning path orders integers', pc.loc())
+    # floats: the IEEE-754 comparison (partial_cmp / the built-in < <= > >=), in source order; total_cmp orders -0.0 below 0.0 and
+    # NaN above everything, which is not what `<` means on floats
+    seen_f = False
+    for p in AbsInt(F, pc, max_paths=5000).run():
+        vs = [c[1] for c in p.constraints if c[0][0] == 'variant' and c[0][2] == TYPE]
+        if not any(v_ and str(v_) == 'Float' for v_ in vs[:1]):
+            continue
+        if p.exit != 'return':
+            continue
+        seen_f = True
+        r = deref(p.env, p.env.get('_0'))
+        why = show(r)
+        cands = [x for x in subtrees(r) if x[0] == 'call' and 'f64' in x[1] and len(x[2]) == 2] if r else []
+        ok = False
+        if len(cands) == 1 and cands[0][1].endswith('::partial_cmp') and 'total' not in cands[0][1]:
+            args = [deref(p.env, deref(p.env, a)) for a in cands[0][2]]
+            ok = all(a[0] == 'call' and a[1].startswith('object::Object::as_f64') for a in args)
+            if ok:
+                ok = [chain.arg_side(a, p.env) for a in args] == [1, 2]
+        if not cands and r and r[0] in ('agg', 'enum'):
+            # spelled out with < > ==: the answer must be the one the comparisons taken on this path imply
+            ans = 'None' if r[2] == 'None' else (str(r[3][0][2]) if r[0] == 'agg' and r[3] and r[3][0][0] == 'enum' else None)
+            rel = []
+            for c in p.constraints:
+                if c[0][0] != 'switch':
+                    continue
+                x = c[0][1]
+                tv = shared.truth(c)
+                while x[0] == 'unop' and x[1] == 'Not':
+                    x, tv = x[2], not tv
+                if is_binop(x) and x[1] in ('Lt', 'Gt', 'Eq') and x[4] == 'f64':
+                    sd = [chain.arg_side(deref(p.env, deref(p.env, a)), p.env) if deref(p.env, a)[0] == 'call' else None for a in (x[2], x[3])]
+                    op = x[1]
+                    if sd == [2, 1]:
+                        op = {'Lt': 'Gt', 'Gt': 'Lt', 'Eq': 'Eq'}[op]
+                    elif sd != [1, 2]:
+                        continue
+                    rel.append((op, tv))
+            if ans == 'Less':
+                ok = ('Lt', True) in rel
+            elif ans == 'Greater':
+                ok = ('Gt', True) in rel
+            elif ans == 'Equal':
+                ok = ('Eq', True) in rel
+            elif ans == 'None':
+                ok = {('Lt', False), ('Gt', False), ('Eq', False)} <= set(rel)
+        rep.ob(ok, 'R06.2', pc.path, 'arm covering Type::Float', 'floats are ordered by the IEEE-754 comparison of their values (f64::partial_cmp of self, other): %s' % why[:160], pc.loc())
+    if not seen_f:
+        rep.bad('R06.2', pc.path, 'arm covering Type::Float', 'no returning path orders floats', pc.loc())
     # `==` / `!=`: exact per type (a shortcut on identical words makes a NaN equal to itself; see R15.5 for the same rule)
     rep.rule('R06.6', 'equality answers only after comparing the tags, by content for floats and strings, by word for immediates')
     from rules import c15
     shared.check_object_eq(F, rep, 'R06.6', c15.heap_types(ctx))
+    # the operator reached through a specialised instruction (`x op literal` on a local) is the same operator
+    rep.rule('R06.7', 'the specialised instructions (variable op literal) apply the same primitive as the generic instruction of their operator: type errors and range errors included')
+    from rules import c10
+    c10.check_fused_equals_generic(ctx, rep, 'R06.7')
     # R06.3
     shared.check_int_encoder_range(ctx, rep, 'R06.3')
     # R06.4
